@@ -53,7 +53,10 @@ def run(ctx):
     os.makedirs(tmp, exist_ok=True)
     modes = [2, 3, 4, 0xFF]
     answers = [["yes"], ["no"], ["N"], ["maybe", "Yes "], [], ["y", "yes"]]
-    for kind, mode, onb, echo_bad in itertools.product(["ledger", "sgx"], modes, [False, True], [False, True]):
+    for kind, mode, onb, echo_bad in itertools.product(["ledger", "sgx"], modes, [False, True],
+                                                       [False, True, "class", "cmd", "short", "long"]):
+        if echo_bad not in (False, True) and mode != 2:
+            continue         # the finer ways an echo can be wrong matter where an echo is asked for: the bootloader
         # ---------------- onboard
         combos = list(itertools.product(["valid", "short", "digits", "symbols", None], [False, True], answers))
         if mode == 2 and not onb and not echo_bad:
